@@ -398,8 +398,15 @@ func genC28(c *hlib.Ctx) {
 				do("blk.run", n, fmt.Sprintf("up:x;mark:x;del:%d;del:x", k))
 				do("blk.run", n, fmt.Sprintf("up:x;nocomp:x;mark:x;del:%d;del:x", k))
 				do("blk.run", n, fmt.Sprintf("up:x;del:%d;del:x", k)) // unmarked block (partial-upload cleaner path)
-				// delete interrupted, block re-uploaded / re-replicated, deleted again
-				do("blk.run", n, fmt.Sprintf("rep:x;mark:x;del:%d;%s:%d;del:x", k, r.Pick([]string{"up", "ship", "rep"}), r.Intn(full+2)))
+				// Delete interrupted at EVERY crash point, then EVERY uploader on the same bucket (the block came
+				// from a local upload or from the replicator): run to the end, and crashed somewhere then finished
+				for _, first := range []string{"up", "rep"} {
+					for _, q := range []string{"up", "ship", "rep"} {
+						c.Count("delete-crash-then:" + q)
+						do("blk.run", n, fmt.Sprintf("%s:x;mark:x;del:%d;%s:x", first, k, q))
+						do("blk.run", n, fmt.Sprintf("%s:x;mark:x;del:%d;%s:%d;%s:x;del:x", first, k, q, r.Intn(full+1), r.Pick([]string{"up", "ship", "rep"})))
+					}
+				}
 			}
 			// Delete of a partial upload at every crash point
 			for k := 0; k <= full; k++ {
